@@ -129,8 +129,11 @@ def run(ctx):
         bounds = []
         orig = W.learn_spn
 
+        trained_on = []
+
         def wrapped(*a, **kw):
             bounds.append(len(s.log))
+            trained_on.append(sorted(int(round(float(v) - (1000.0 * (n_cols - 1) + 500.0))) - 2 for v in np.asarray(a[0])[:, n_cols - 1]))
             return LS.learn_spn(*a, **kw)
         W.learn_spn = wrapped
         LS.np = L.NpProxy(s.log)
@@ -152,10 +155,32 @@ def run(ctx):
         if not isinstance(root, Sum) or len(root.children) != len(uniq) or any(np.float32(f) != np.float32(w) for f, w in zip(freq, root.weights)):
             ctx.violation('c05-classifier-weights', f'classifier root weights {[float(w) for w in getattr(root, "weights", [])]} are not the class frequencies {freq}', replay=rep)
             continue
+        # the property itself: the weight of child i is the fraction of the training rows routed to child i's sub-model — whatever
+        # the order in which the wrapper visits the classes
+        bad = None
+        if len(trained_on) != len(root.children):
+            bad = f'{len(trained_on)} branches were learned for {len(root.children)} children'
+        else:
+            for i, (rows_i, w) in enumerate(zip(trained_on, root.weights)):
+                if len(set(rows_i)) != 1:
+                    bad = f'branch {i} was trained on rows of the classes {sorted(set(rows_i))}'
+                elif len(rows_i) != cls.count(rows_i[0]) or np.float32(len(rows_i) / n_rows) != np.float32(w):
+                    bad = (f'child {i} was trained on {len(rows_i)} rows of class {rows_i[0]} (frequency {cls.count(rows_i[0])}/{n_rows}) '
+                           f'but carries weight {float(w)}')
+                if bad:
+                    break
+        if bad:
+            ctx.violation('c05-classifier-branch-prior', f'classifier ({data.dtype} training matrix, classes {uniq}): {bad}', replay=rep)
+            continue
         if ctx.driver_ok:
             scripts = [s.log[a:b] for a, b in zip(bounds, bounds[1:])]
-            lean = ctx.get_driver().ask(dict(op='classifier', classes=[int(c) for c in cls], n_cols=n_cols, min_rows_slice=min_rows,
-                                             min_cols_slice=min_cols, front=front, scripts=scripts))
+            try:
+                lean = ctx.get_driver().ask(dict(op='classifier', classes=[int(c) for c in cls], n_cols=n_cols, min_rows_slice=min_rows,
+                                                 min_cols_slice=min_cols, front=front, scripts=scripts))
+            except Infra as ex:
+                if 'bad-op' not in str(ex):
+                    raise
+                lean = 'script-mismatch: ' + str(ex)[:160]
             good = lean.startswith('S{')
             if good:
                 tops = L.split_top(lean)
